@@ -306,6 +306,14 @@ func runSchedule(t *testing.T, p *program, prefix []int) (tr trace) {
 			}
 		}
 		tr.history = strings.Join(s.events, " ")
+		if c, ok := obj.(interface{ shutdown() }); ok {
+			// objects with goroutines of their own (a real connection) end them before the bubble is left
+			func() {
+				defer func() { _ = recover() }()
+				c.shutdown()
+			}()
+			synctest.Wait()
+		}
 	})
 	return tr
 }
